@@ -296,6 +296,15 @@ class GuardDefinition:
         # (`{"type": "and", ...}`) declares composition. Without this a user
         # who legitimately names a guard `and`, `or` or `not` could not use
         # it at all — the parser demanded nested children it would never have.
+        # 🛡️ Nested guards come as a list. Iterating anything else either
+        #    raised a raw TypeError or, for a string or mapping, silently
+        #    built one guard per character / key.
+        if not isinstance(children_cfg, (list, tuple)):
+            raise InvalidConfigError(
+                f"❌ Guard '{self.type}' has invalid nested guards of type "
+                f"'{type(children_cfg).__name__}'. Expected a list."
+            )
+
         self.is_composite = (
             self.type in COMPOSITE_GUARD_TYPES and not isinstance(config, str)
         )
